@@ -5,7 +5,7 @@ open Cppcheck.Wire Cppcheck.PPCond Cppcheck.PPMacro
 /-
 Line protocol (one op per line):
   ev <defs> <hexexpr>               -> "V <n>" | "E div0|divov|invalid|fnmacro|other"     (simplecpp `#if` evaluator on the text)
-  pp <q> <defs> <undefs> <hexsrc>   (q = four 0/1 flags: Quirks.vaComma, stringSpace, elifEval, pasteBlue; 1111 = the code)
+  pp <q> <defs> <undefs> <hexsrc>   (q = four 0/1 flags: Quirks.vaComma, stringSpace, elifEval, pasteBlue; 1101 = the code since 8474bf0)
                                     -> "T <hex of output tokens joined by one space>" | "E <class>" | "X <why>" (outside the fragment)
   cd <hex userDefines> <undefs> <hex cfg> <hexsrc>   -> same, through the model of createDUI
   spec|specpf <defs> <ast>          -> "<hex printed text> <S v u | U> <class> <V n | E cls>"   specification value, agreement class
